@@ -25,4 +25,4 @@ def run(run):
     run.cov["distinct_nontrivial"] = run.cov["evaluations"]
     run.assumptions += ["synthetic TimeZoneProvider (harness/src/synth_tz.rs); durations with whole seconds only (the sub-second part .123456789 of every instant must be preserved)",
                         "the inverse law add(until) is stated for receivers that are the compatible reading of their own wall time (Temporal itself does not round-trip from the second occurrence of a repeated time)",
-                        "hours_in_day returns an integer type: days whose length is not a whole number of hours accept any non-panicking outcome"]
+                        "hours_in_day returns an integer type: for a day whose length is not a whole number of hours the answer must be one of the two neighbouring integers (floor or ceiling of the exact length)"]
